@@ -19,7 +19,7 @@ Qed.
 Lemma trig_get1_items_perm s : Permutation (items (fst (trig_get1 s))) (items s).
 Proof.
   unfold trig_get1. destruct (getq s) as [|r q]; simpl; auto.
-  destruct (admit_get s); simpl; auto.
+  destruct (allow_get s); simpl; auto.
   destruct (split_first _ _) as [[[a x] b]|] eqn:E; simpl; auto.
   apply split_first_perm in E.
   rewrite <- (firstn_skipn (length (getres s)) (items s)) at 2.
@@ -55,7 +55,7 @@ Proof. apply Permutation_length, trig_get_items_perm. Qed.
 
 Lemma trig_put_cap s : CapInv s -> CapInv (fst (trig_put s)).
 Proof.
-  unfold trig_put, CapInv, admit_put. destruct (putq s) as [|r q]; simpl; auto.
+  unfold trig_put, CapInv, allow_put. destruct (putq s) as [|r q]; simpl; auto.
   destruct (Nat.ltb_spec (length (putres s) + length (items s)) (cap s)); simpl; auto.
   rewrite app_length; simpl; lia.
 Qed.
@@ -63,7 +63,7 @@ Qed.
 Lemma trig_get1_cap s : CapInv s -> CapInv (fst (trig_get1 s)).
 Proof.
   intros H. pose proof (trig_get1_items_len s) as L. revert L.
-  unfold trig_get1, CapInv, admit_get in *. destruct (getq s) as [|r q]; simpl; auto.
+  unfold trig_get1, CapInv, allow_get in *. destruct (getq s) as [|r q]; simpl; auto.
   destruct (Nat.ltb_spec (length (getres s)) (length (items s))); simpl; auto.
   destruct (split_first _ _) as [[[a x] b]|] eqn:E; simpl; auto.
   intros L. rewrite L, app_length; simpl; lia.
@@ -78,7 +78,7 @@ Lemma trig_put_fields s :
   next s' = next s /\ s_kind s' = s_kind s /\ now s' = now s /\ tdelay s' = tdelay s.
 Proof.
   unfold trig_put. destruct (putq s); simpl; [repeat split|].
-  destruct (admit_put s); simpl; repeat split.
+  destruct (allow_put s); simpl; repeat split.
 Qed.
 
 Lemma trig_get1_fields s :
@@ -87,7 +87,7 @@ Lemma trig_get1_fields s :
   next s' = next s /\ s_kind s' = s_kind s /\ now s' = now s /\ tdelay s' = tdelay s.
 Proof.
   unfold trig_get1. destruct (getq s); simpl; [repeat split|].
-  destruct (admit_get s); simpl; [|repeat split].
+  destruct (allow_get s); simpl; [|repeat split].
   destruct (split_first _ _) as [[[a x] b]|]; simpl; repeat split.
 Qed.
 
